@@ -486,15 +486,35 @@ def run(chk, repo):
                why="product must range over all pairs of terms", node=mul)
     add = repo.find(LP, "Poly.__add__")
     ia = [n for n in ast.walk(add) if isinstance(n, ast.Assign) and unparse(n.targets[0]) == "intersect"]
-    ok = len(ia) == 1 and unparse(ia[0].value) == \
-        "[(key, self._data[key] + other._data[key]) for key in set(self._data).intersection(other._data)]"
-    chk.decide(ok, "C07.product", W("Poly.__add__"), short(ia[0]) if ia else "intersect missing",
-               why="coefficients of common powers must be added", node=add)
     r = [n for n in own_nodes(add) if isinstance(n, ast.Return)][0]
     ch = [n for n in ast.walk(r) if isinstance(n, ast.Call) and canon_call(mod, n) == "itertools.chain"]
-    ok = len(ch) == 1 and [unparse(a) for a in ch[0].args] == ["iteritems(self._data)", "iteritems(other._data)", "intersect"]
-    chk.decide(ok, "C07.product", W("Poly.__add__"), "chain order: " + (", ".join(unparse(a) for a in ch[0].args) if ch else "?"),
-               why="the summed coefficients must come last so that they overwrite the operands' own entries", node=r)
+    if not ia and not ch:
+        # the same sum built in place: D = OrderedDict(self._data) ; D.update(other._data) ; for k in <common keys>:
+        # D[k] = self._data[k] + other._data[k] ; return Poly(D, zero=self.zero)
+        ab_ = [s_ for s_ in docstring_free(add.body) if not (isinstance(s_, ast.If) and "isinstance(other, Poly)" in unparse(s_.test))]
+        form = None
+        if len(ab_) == 4 and isinstance(ab_[0], ast.Assign) and isinstance(ab_[0].targets[0], ast.Name):
+            d_ = ab_[0].targets[0].id
+            form = unparse(ab_[0].value) in ("OrderedDict(self._data)", "OrderedDict(iteritems(self._data))") \
+                and unparse(ab_[1]) == "%s.update(other._data)" % d_ \
+                and isinstance(ab_[2], ast.For) and isinstance(ab_[2].target, ast.Name) and len(ab_[2].body) == 1 \
+                and unparse(ab_[2].iter) in ("set(self._data).intersection(other._data)", "set(other._data).intersection(self._data)") \
+                and unparse(ab_[2].body[0]) == "{d}[{k}] = self._data[{k}] + other._data[{k}]".format(d=d_, k=ab_[2].target.id) \
+                and unparse(ab_[3]) == "return Poly(%s, zero=self.zero)" % d_
+        if form:
+            chk.decide(True, "C07.product", W("Poly.__add__"), "own terms, then the other's, then the sums of the common powers "
+                       "(in place)", why="coefficients of common powers must be added", node=add)
+        else:
+            chk.defer("%s: the sum is neither the chain of (own items, other's items, sums of common powers) nor its "
+                      "in-place form" % W("Poly.__add__"))
+    else:
+        ok = len(ia) == 1 and unparse(ia[0].value) == \
+            "[(key, self._data[key] + other._data[key]) for key in set(self._data).intersection(other._data)]"
+        chk.decide(ok, "C07.product", W("Poly.__add__"), short(ia[0]) if ia else "intersect missing",
+                   why="coefficients of common powers must be added", node=add)
+        ok = len(ch) == 1 and [unparse(a) for a in ch[0].args] == ["iteritems(self._data)", "iteritems(other._data)", "intersect"]
+        chk.decide(ok, "C07.product", W("Poly.__add__"), "chain order: " + (", ".join(unparse(a) for a in ch[0].args) if ch else "?"),
+                   why="the summed coefficients must come last so that they overwrite the operands' own entries", node=r)
     sub = repo.find(LP, "Poly.__sub__")
     try:
         v = Evaluator().ev(docstring_free(sub.body)[-1].value)
